@@ -273,11 +273,17 @@ pub fn ord_values(ty: Ty, len: std::ops::Range<usize>, wide: bool) -> BoxedStrat
                 prop_oneof![
                     3 => proptest::collection::vec(moderate_f64().prop_map(f64_abs), len.clone()),
                     2 => proptest::collection::vec(f64_value(false).prop_map(f64_abs), len.clone()),
-                    1 => proptest::collection::vec(f64_value(true).prop_map(f64_abs), len),
+                    1 => proptest::collection::vec(f64_value(true).prop_map(f64_abs), len.clone()),
+                    // ties that are equal under Ord but differ in their bit pattern
+                    1 => proptest::collection::vec(prop_oneof![Just(0.0f64), Just(-0.0f64), Just(0.0f64), Just(1.0f64), Just(-1.0f64)].prop_map(f64_abs), len),
                 ]
                 .boxed()
             } else {
-                proptest::collection::vec(moderate_f64().prop_map(f64_abs), len).boxed()
+                prop_oneof![
+                    6 => proptest::collection::vec(moderate_f64().prop_map(f64_abs), len.clone()),
+                    1 => proptest::collection::vec(prop_oneof![Just(0.0f64), Just(-0.0f64), Just(0.0f64), Just(1.0f64), Just(-1.0f64)].prop_map(f64_abs), len),
+                ]
+                .boxed()
             }
         }
         Ty::N32 => {
